@@ -334,4 +334,157 @@ def objRulesL : List Val → List Nat
   | v :: vs => v.objRules ++ objRulesL vs
 end
 
+/-! ## alternatives, spelled out (a second reading of `FirstNM`) -/
+
+mutual
+/-- the alternatives of a body: each one the sequence of rule references it goes through -/
+def Body.alts : Body → List (List Nat)
+  | .lit => [[]]
+  | .ref r => [[r]]
+  | .seq xs => altsSeq xs
+  | .choice xs => altsChoice xs
+  | .other _ => []
+def altsSeq : List Body → List (List Nat)
+  | [] => [[]]
+  | x :: xs => x.alts.flatMap fun a => (altsSeq xs).map fun rest => a ++ rest
+def altsChoice : List Body → List (List Nat)
+  | [] => []
+  | x :: xs => x.alts ++ altsChoice xs
+end
+
+/-- first non-match reference of one alternative -/
+def firstNMof (k : Kinds) (a : List Nat) : Option Nat := a.find? fun r => k r != .mtch
+
+mutual
+/-- no empty ordered choice (the grammar language cannot write one) -/
+def Body.noEmptyChoice : Body → Bool
+  | .lit => true
+  | .ref _ => true
+  | .seq xs => noEmptyChoiceL xs
+  | .choice xs => !xs.isEmpty && noEmptyChoiceL xs
+  | .other xs => noEmptyChoiceL xs
+def noEmptyChoiceL : List Body → Bool
+  | [] => true
+  | x :: xs => x.noEmptyChoice && noEmptyChoiceL xs
+end
+
+/-! ## the pinned behaviour (before the repairs), for the negation witnesses -/
+
+mutual
+/-- `_add_reffered_classes` as pinned: an already listed class does not end the
+walk; an ordered choice ends the enclosing sequence as soon as one alternative found something -/
+def addRefPinned (k : Kinds) : Body → List Nat → List Nat × Bool
+  | .lit, acc => (acc, false)
+  | .ref r, acc => if k r ≠ .mtch ∧ r ∉ acc then (acc ++ [r], true) else (acc, false)
+  | .seq xs, acc => addSeqPinned k xs acc
+  | .other xs, acc => addSeqPinned k xs acc
+  | .choice xs, acc => addChoicePinned k xs acc
+def addSeqPinned (k : Kinds) : List Body → List Nat → List Nat × Bool
+  | [], acc => (acc, false)
+  | x :: xs, acc =>
+      match addRefPinned k x acc with
+      | (acc1, true) => (acc1, true)
+      | (acc1, false) => addSeqPinned k xs acc1
+def addChoicePinned (k : Kinds) : List Body → List Nat → List Nat × Bool
+  | [], acc => (acc, false)
+  | x :: xs, acc =>
+      match addRefPinned k x acc with
+      | (acc1, b1) =>
+          match addChoicePinned k xs acc1 with
+          | (acc2, b2) => (acc2, b1 || b2)
+end
+
+/-- pinned `process_node` for an abstract rule with several children: the first
+non-terminal child whatever its rule kind (`… is not RULE_MATCH` was always true) -/
+def procAbsPinned (k : Kinds) (kids : List PT) : Val :=
+  match procFirst k PT.isNT kids with
+  | some v => v
+  | none => .prim (flatL kids)
+
+/-- pinned state: the inheritance lists are filled while the kinds are still moving -/
+structure StP where
+  kinds : Kinds
+  visited : List Nat
+  change : Bool
+  inh : Nat → List Nat
+
+def updL (m : Nat → List Nat) (r : Nat) (v : List Nat) : Nat → List Nat := fun x => if x = r then v else m x
+
+mutual
+def hasNMP (det : Nat → StP → StP) : Body → StP → StP × Bool
+  | .lit, st => (st, false)
+  | .ref r, st =>
+      let st' := det r st
+      (st', st'.kinds r != .mtch)
+  | .seq xs, st => hasNMLP det xs st
+  | .choice xs, st => hasNMLP det xs st
+  | .other xs, st => hasNMLP det xs st
+def hasNMLP (det : Nat → StP → StP) : List Body → StP → StP × Bool
+  | [], st => (st, false)
+  | x :: xs, st =>
+      match hasNMP det x st with
+      | (st1, true) => (st1, true)
+      | (st1, false) => hasNMLP det xs st1
+end
+
+mutual
+def addRefP (det : Nat → StP → StP) : Body → StP × List Nat → (StP × List Nat) × Bool
+  | .lit, s => (s, false)
+  | .ref r, (st, acc) =>
+      let st' := det r st
+      if st'.kinds r ≠ .mtch ∧ r ∉ acc then ((st', acc ++ [r]), true) else ((st', acc), false)
+  | .seq xs, s => addSeqP det xs s
+  | .other xs, s => addSeqP det xs s
+  | .choice xs, s => addChoiceP det xs s
+def addSeqP (det : Nat → StP → StP) : List Body → StP × List Nat → (StP × List Nat) × Bool
+  | [], s => (s, false)
+  | x :: xs, s =>
+      match addRefP det x s with
+      | (s1, true) => (s1, true)
+      | (s1, false) => addSeqP det xs s1
+def addChoiceP (det : Nat → StP → StP) : List Body → StP × List Nat → (StP × List Nat) × Bool
+  | [], s => (s, false)
+  | x :: xs, s =>
+      match addRefP det x s with
+      | (s1, b1) =>
+          match addChoiceP det xs s1 with
+          | (s2, b2) => (s2, b1 || b2)
+end
+
+def determineP (g : Gram) : Nat → Nat → StP → StP
+  | 0, _, st => st
+  | f + 1, r, st =>
+      if r ∈ st.visited then st
+      else
+        let st0 : StP := { st with visited := r :: st.visited }
+        match g[r]? with
+        | none => st0
+        | some rule =>
+            if rule.hasAttrs then
+              if st0.kinds r ≠ .common then { st0 with kinds := upd st0.kinds r .common, change := true }
+              else st0
+            else
+              match hasNMP (determineP g f) rule.body st0 with
+              | (st1, abstract) =>
+                  if abstract && st1.kinds r != .abstr then
+                    let st2 : StP := { st1 with kinds := upd st1.kinds r .abstr, change := true }
+                    match rule.body with
+                    | .ref t =>
+                        { st2 with inh := updL st2.inh r (if t ∈ st2.inh r then st2.inh r else st2.inh r ++ [t]) }
+                    | b =>
+                        match addRefP (determineP g f) b (st2, st2.inh r) with
+                        | ((st3, l), _) => { st3 with inh := updL st3.inh r l }
+                  else st1
+
+def passesP (g : Gram) : Nat → StP → StP
+  | 0, st => st
+  | p + 1, st =>
+      let st' := (List.range g.length).foldl (fun st r => determineP g (g.length + 1) r st)
+        { st with visited := [], change := false }
+      if st'.change then passesP g p st' else st'
+
+/-- `_tx_inh_by` on the pinned tree -/
+def inhByPinned (g : Gram) (r : Nat) : List Nat :=
+  (passesP g (g.length + 1) ⟨initKinds, [], false, fun _ => []⟩).inh r
+
 end RuleTypes
